@@ -96,10 +96,15 @@ REGISTRY.update({
 
 
 def run_c13(ctx: Ctx):
-    ctx.level = "other"
-    ctx.trusted_base = MARKER_TRUST
-    ctx.coverage["explanation"] = PENDING
-    props_spec.run_c13_spec(ctx)
+    ctx.trusted_base = BASE_TRUST + ["hash(x) is modelled as an unknown function of the generated hash key spec_hkey x (dataclass unsafe_hash: tuple of hash-flagged fields; "
+                                     "Version hashes its comparison key); stream S-gen compares key equality with observed hash equality",
+                                     "marker part (objects differing in operand order / value order / attached caches): direct oracle only"]
+    props_spec.proof_step(ctx, "Props/C13.v", ["C13_refl", "C13_sym", "C13_trans", "C13_total", "C13_hash", "C13_congr"], extra_targets=["Model/Corr.v"])
+    pairs = props_spec.run_c13_spec(ctx)
+    if not any(b["kind"] == "translation" for b in ctx.broken):
+        from dep_logic.specifiers import AnySpecifier, RangeSpecifier
+        extra = [("plain", AnySpecifier(), RangeSpecifier()), ("plain", RangeSpecifier(), AnySpecifier())]
+        props_spec.stream_sgen(ctx, extra + pairs[: 800 if ctx.tier == "quick" else 8000], with_predicates=False, with_hash=True)
     pm.oracle_c13_markers(ctx, _n(ctx, 200, 3000))
     ctx.coverage["rule"] = ("pairs/triples of canonical specifiers incl. AnySpecifier vs RangeSpecifier(), respelled bounds (1.0 vs 1.0.0); marker pairs "
                             "that compare equal but were built differently (operand order, value order, zero padding) plus random pairs; "
@@ -107,6 +112,21 @@ def run_c13(ctx: Ctx):
 
 
 REGISTRY["C13"] = run_c13
+
+
+def run_c09(ctx: Ctx):
+    ctx.trusted_base = ["Coq 8.16.1 kernel; Print Assumptions: closed under the global context (vm_compute used for the finite order sweep C09_order_grid, bound stated in the theorem)",
+                        "Model/Platform.v is a hand-written model of platform.py; the tie is the S-plat stream, exhaustive over the property's whole configuration grid (and beyond: K up to 100, unsupported combinations)",
+                        "packaging.tags (with its glibc/musl probes stubbed) as the reference for 'newest-first exactly as packaging orders it' in the direct oracle"]
+    props_spec.proof_step(ctx, "Props/C09.v", ["C09_manylinux", "C09_musl", "C09_mac_x86", "C09_mac_arm64", "C09_mac_arm64_10_refuted", "C09_win", "C09_score", "C09_order_grid"],
+                          extra_targets=["Model/CorrPlat.v"])
+    pt.stream_splat(ctx)
+    pt.oracle_c09(ctx)
+    ctx.coverage["rule"] = "the whole configuration grid of the property (manylinux 2.5..2.50 x 7 architectures, musllinux 1.1..1.5, macOS 10.4..10.16 and 11..30 x 2, Windows x 3), plus out-of-grid and unsupported combinations in the correspondence"
+    ctx.coverage["exhaustive"] = True
+
+
+REGISTRY["C09"] = run_c09
 
 
 def with_algebra_cone(inner, pid):
